@@ -81,7 +81,7 @@ def run(ctx: core.Ctx):
     # accessor: whits with s / sg / p and the three dimension orders
     from hdc.algo.ops import ws2dgu, ws2dpgu
     for k in range(ctx.budget(8, 60)):
-        nt, ny, nx = rng.choice([6, 12, 36]), rng.choice([2, 3]), 3
+        nt, ny, nx = rng.choice([6, 12, 36]), (3 if k == 0 else rng.choice([2, 3])), 3
         nd = -3000
         cube = np.zeros((nt, ny, nx), dtype="int16")
         for i in range(ny):
@@ -92,7 +92,7 @@ def run(ctx: core.Ctx):
         t = np.arange(nt).astype("datetime64[D]")
         da = xr.DataArray(cube, dims=("time", "y", "x"), coords={"time": t})
         p = rng.choice([None, 0.9, 0.2])
-        mode = rng.choice(["s", "sg"])
+        mode = "sg" if k % 2 == 0 else "s"
         if mode == "s":
             s = gen.lam(rng)
             lam_px = np.full((ny, nx), s)
@@ -101,7 +101,7 @@ def run(ctx: core.Ctx):
             sgv = np.array([[rng.choice([-np.inf, -1.0, 0.5, 2.0, 3.3]) for _ in range(nx)] for _ in range(ny)])
             lam_px = 10 ** sgv
             sgd = xr.DataArray(sgv, dims=("y", "x"))
-            form = rng.choice(["yx", "xy", "float32"])
+            form = ["xy", "yx", "float32"][(k // 2) % 3]
             if form == "xy":
                 sgd = sgd.transpose("x", "y")          # named dims: must be matched by name, not by position
             elif form == "float32":
@@ -109,8 +109,12 @@ def run(ctx: core.Ctx):
                 lam_px = 10 ** sgd.values.astype("float32")
             kw = dict(sg=sgd)
         for order in (("time", "y", "x"), ("y", "x", "time"), ("y", "time", "x")):
-            res = da.transpose(*order).hdc.whit.whits(nodata=nd, p=p, **kw)
-            res = res.transpose("time", "y", "x")
+            try:
+                res = da.transpose(*order).hdc.whit.whits(nodata=nd, p=p, **kw)
+                res = res.transpose("time", "y", "x")
+            except Exception as e:  # noqa: BLE001
+                ctx.fail("whits", dict(mode=mode, p=p, dims=order, sg_dims=(list(kw["sg"].dims) if "sg" in kw else None)), repr(e)[:200], "no exception")
+                continue
             ctx.case(("whits", cube.tobytes(), mode, p, order), sample=dict(accessor="whits", mode=mode, p=p, dims=order))
             ctx.count("whits/" + mode)
             for i in range(ny):
